@@ -73,6 +73,7 @@ struct vf_shared {
 static struct vf_shared *S;
 static int shard_i, shard_n = 1;
 static long start_idx, replay_idx = -1;
+static int hist_i, hist_n;   /* --replay-history I/N: run the earlier cases of that shard first (a failure that depends on what an earlier case left behind) */
 static long cur_idx = -1;       /* index of last vf_case() call */
 static int cur_exec;            /* is the current case being executed here */
 static uint64_t cur_outcome;
@@ -212,7 +213,7 @@ static void finalize_case(void)
 		S->samp[k].outcome = cur_outcome;
 		snprintf(S->samp[k].desc, sizeof S->samp[k].desc, "%s", cur_desc);
 	}
-	if (vf_replaying) {
+	if (vf_replaying && cur_idx == replay_idx) {
 		char buf[4096];
 		snprintf(buf, sizeof buf, "{\"type\":\"replayed\",\"idx\":%ld,\"desc\":\"%s\",\"outcome\":\"%016llx\"}\n",
 			 cur_idx, vf_esc(cur_desc), (unsigned long long)cur_outcome);
@@ -242,7 +243,7 @@ int vf_case(const char *fmt, ...)
 			fflush(NULL);
 			_exit(0);
 		}
-		if (cur_idx != replay_idx)
+		if (cur_idx != replay_idx && !(hist_n > 0 && cur_idx % hist_n == hist_i))
 			return 0;
 	} else {
 		if (cur_idx < start_idx || (cur_idx % shard_n) != shard_i)
@@ -304,6 +305,8 @@ void vf_violation(const char *key, const char *fmt, ...)
 	va_start(ap, fmt);
 	vsnprintf(detail, sizeof detail, fmt, ap);
 	va_end(ap);
+	if (vf_replaying && cur_idx != replay_idx)
+		return;   /* history replay: the earlier cases only set the scene */
 	S->nviol++;
 	/* cap the number of lines per finding key and shard; the total count stays exact */
 	{
@@ -657,7 +660,9 @@ int vf_main(int argc, char **argv, void (*enumerate)(void))
 		else if (!strcmp(argv[i], "--replay") && i + 1 < argc) {
 			replay_idx = atol(argv[++i]);
 			replay = 1;
-		} else if (!strcmp(argv[i], "--deadline") && i + 1 < argc)
+		} else if (!strcmp(argv[i], "--replay-history") && i + 1 < argc)
+			sscanf(argv[++i], "%d/%d", &hist_i, &hist_n);
+		else if (!strcmp(argv[i], "--deadline") && i + 1 < argc)
 			deadline = atof(argv[++i]);
 		else if (!strcmp(argv[i], "--param") && i + 1 < argc)
 			vf_param = atol(argv[++i]);
